@@ -44,4 +44,67 @@ mod kani_verif {
             }
         }
     }
+
+    #[kani::proof]
+    #[kani::unwind(6)]
+    fn component_set_exact_direct() {
+        let b: u8 = kani::any();
+        kani::assume(b < 128);
+        let arr = [b];
+        let s = std::str::from_utf8(&arr).unwrap();
+        let mut out = [0u8; 3];
+        let mut n = 0;
+        for chunk in utf8_percent_encode(s, COMPONENT) {
+            let cb = chunk.as_bytes();
+            let mut j = 0;
+            while j < cb.len() { assert!(n < 3); out[n] = cb[j]; n += 1; j += 1; }
+        }
+        if unreserved(b) {
+            assert!(n == 1 && out[0] == b);
+        } else {
+            assert!(n == 3 && out[0] == b'%' && out[1] == hex(b >> 4) && out[2] == hex(b & 15));
+        }
+    }
+
+    #[kani::proof]
+    #[kani::unwind(10)]
+    fn builder_structure_path_then_two_queries() {
+        let v: [u8; 3] = kani::any();
+        kani::assume(v[0] < 128 && v[1] < 128 && v[2] < 128);
+        let a0 = [v[0]]; let a1 = [v[1]]; let a2 = [v[2]];
+        let s0 = std::str::from_utf8(&a0).unwrap();
+        let s1 = std::str::from_utf8(&a1).unwrap();
+        let s2 = std::str::from_utf8(&a2).unwrap();
+        let mut b = UriBuilder::new();
+        b.push_path_parameter_raw(s0);
+        b.push_query_parameter_raw("k", s1);
+        b.push_query_parameter_raw("k", s2);
+        let out = &b.buf[..];
+        let mut slashes = 0; let mut qs = 0; let mut amps = 0; let mut eqs = 0; let mut hashes = 0;
+        let mut i = 0;
+        while i < out.len() {
+            match out[i] { b'/' => slashes += 1, b'?' => qs += 1, b'&' => amps += 1, b'=' => eqs += 1, b'#' => hashes += 1, _ => {} }
+            i += 1;
+        }
+        assert!(slashes == 1 && qs == 1 && amps == 1 && eqs == 2 && hashes == 0);
+        assert!(out[0] == b'/');
+    }
+
+    #[kani::proof]
+    #[kani::unwind(8)]
+    fn query_push_single_call_contract() {
+        let b: u8 = kani::any();
+        kani::assume(b < 128);
+        let arr = [b];
+        let sv = std::str::from_utf8(&arr).unwrap();
+        let in_path: bool = kani::any();
+        let mut ub = UriBuilder { buf: BytesMut::new(), in_path };
+        ub.push_query_parameter_raw("k", sv);
+        let out = &ub.buf[..];
+        assert!(!ub.in_path);
+        assert!(out[0] == if in_path { b'?' } else { b'&' });
+        assert!(out[1] == b'k' && out[2] == b'=');
+        if unreserved(b) { assert!(out.len() == 4 && out[3] == b); }
+        else { assert!(out.len() == 6 && out[3] == b'%' && out[4] == hex(b >> 4) && out[5] == hex(b & 15)); }
+    }
 }
